@@ -242,6 +242,7 @@ def gen_test(rng, nlayers, rich=True):
 def gen_world(rng, max_layers=4, max_tests=7, opts='any', faults=True, rich=True):
     n = rng.randint(0, max_layers)
     layers = gen_layers(rng, n, faults=faults)
+    chain = None
     if faults and n >= 2 and rng.random() < 0.12:
         # a tear-down pass that meets an error and then a layer that cannot be torn down: a derived layer whose tearDown raises
         # over a base whose tearDown raises NotImplementedError (the derived one is torn down first)
@@ -253,7 +254,11 @@ def gen_world(rng, max_layers=4, max_tests=7, opts='any', faults=True, rich=True
             b = rng.choice(layers[i]['bases'])
             layers[b]['hooks']['tearDown'] = ['notimpl']
             layers[b]['hooks'].setdefault('setUp', ['ok'])
+            chain = i
     tests = [gen_test(rng, n, rich) for _ in range(rng.randint(1, max_tests))]
+    if chain is not None:
+        # the derived layer is used, and so is every other layer (some group follows it in the run order)
+        tests += [{'layer': j} for j in range(n) if j == chain or rng.random() < 0.7]
     options = []
     if opts == 'any':
         r = rng.random()
